@@ -3,6 +3,7 @@ from rules import transport as T
 from rules import session as S
 from rules import layout as LY
 from rules import fdseg
+from rules import flow as F
 
 TRUSTED_BASE = ["/verif/spec/sae.py (tables transcribed from SAE J1939-21/-22)", "/verif/sa/bits.py transfer functions"]
 
@@ -13,12 +14,16 @@ def run(ctx):
     ctx.rule("R-SEG-CONST", "J1939-21 DT packets carry 7 data bytes at offset 7*index, padded with 0xFF", floor=2)
     ctx.rule("R-SEQ-BASE", "sequence numbers are 1-based and in order", floor=2)
     ctx.rule("R-SEG-CONST-FD", "FD segments carry 60 data bytes, remainder last, padded with 0xFF", floor=3)
+    ctx.rule("R-CTS-BORDER", "as responder: CTS at the border the announced windows imply (a conforming originator is never left waiting)", floor=4)
+    ctx.rule("R-GRANT-MIN", "as responder: grants bounded by the peer's RTS limit, own maximum and the remaining count", floor=6)
     ctx.rule("R-DISPATCH", "PGN and control-byte constants equal the SAE values", floor=15)
     for fd in (False, True):
         L = T.Layer(ctx, fd=fd)
         LY.builders(ctx, L)
         LY.parsers(ctx, L)
         T.dispatch(ctx, L)
+        F.cts_border(ctx, L)
+        F.grant_min(ctx, L)
         if fd:
             LY.lut_legal(ctx, L)
             fdseg.seg_const_fd(ctx, L)
